@@ -60,7 +60,7 @@ CNAMES = ['RC', 'L', 'V', 'AM', 'I', 'VCVS', 'VCCS', 'CCCS', 'CCVS', 'K', 'TF', 
           'TPY', 'TPZ', 'TR', 'SPpp', 'SPpm', 'SPppp', 'SPpmm', 'SPppm', 'RV', 'Dummy']
 PNAMES = ['pY', 'pZ', 'pIsc', 'pVoc', 'pArg0', 'pArg1', 'pAlpha', 'pEps', 'pA11', 'pA12', 'pA21', 'pA22',
           'pY11', 'pY12', 'pY21', 'pY22', 'pZM0', 'pZM1', 'pZL1', 'pZL2', 'pK', 'pZM2', 'pI01', 'pI02']
-ALLOW = ['E', 'G', 'H', 'F', 'TF', 'GY', 'W', 'AM', 'dup', 'TR']
+ALLOW = ['E', 'G', 'H', 'F', 'TF', 'GY', 'W', 'AM', 'dup', 'TR', 'K']
 
 
 def log(msg):
@@ -287,9 +287,36 @@ def gen_circuit(rng, profile, tier='quick'):
             if not keep:
                 p = l.split()
                 lines[i] = 'R%d %s %s %s' % (90 + i, p[1], p[2], p[3])
+    # mutual inductance: drop couplings whose inductors were converted, and add one in about a quarter of the
+    # circuits (both inductors get the same value so that M = k sqrt(L1 L2) is rational)
+    lnames = [l.split()[0] for l in lines if l[0] == 'L' and l[1].isdigit()]
+    lines = [l for l in lines if not (l[0] == 'K' and l[1].isdigit()) or all(x in lnames for x in l.split()[1:3])]
+    if profile != 'res' and not any(l[0] == 'K' and l[1].isdigit() for l in lines) and rng.random() < 0.28:
+        cand = [i for i, l in enumerate(lines) if (l[0] in 'LR' and l[1].isdigit())]
+        li = [i for i in cand if lines[i][0] == 'L'][:2]
+        ri = [i for i in cand if lines[i][0] == 'R']
+        rng.shuffle(ri)
+        while len(li) < 2 and ri:
+            li.append(ri.pop())
+        if len(li) == 2:
+            v = netgen.fs(netgen.val(rng))
+            nms = []
+            for j, i in enumerate(li):
+                p = lines[i].split()
+                nm = p[0] if p[0][0] == 'L' else 'L%d' % (60 + j)
+                ic = ''
+                if profile == 'ivp' and rng.random() < 0.7:
+                    ic = ' ' + netgen.fs(netgen.val(rng, -4, 4))
+                elif p[0][0] == 'L' and len(p) > 4:
+                    ic = ' ' + p[4]
+                lines[i] = '%s %s %s %s%s' % (nm, p[1], p[2], v, ic)
+                nms.append(nm)
+            lines.append('K1 %s %s %s' % (nms[0], nms[1], netgen.fs(Fraction(rng.randint(1, 3), 4))))
     nodes = []
     for l in lines:
         p = l.split()
+        if p[0][0] == 'K':
+            continue
         for n in p[1:3]:
             if n not in nodes:
                 nodes.append(n)
@@ -423,6 +450,16 @@ CORPUS = [
                  'V2': {'kind': 'ac', 'c': '3', 'w': '2', 'np': '3', 'nm': '0'}, 'V3': {'kind': 'noise', 'c': '3', 'nid': 'nx7', 'np': '4', 'nm': '0'},
                  'I2': {'kind': 'noise', 'c': '2', 'nid': 'nx7', 'np': '2', 'nm': '0'}},
      'scale': {'src': 'V2', 'k': '-2', 'line': 'V2 3 0 ac {-6} 0 2'}},
+    # coupled inductors with initial currents (the K stamp reads both), and the same coupling without ICs + ac
+    {'type': 'circuit', 'profile': 'ivp', 'tags': ['corpus', 'K'], 's0': '2/1', 'w0': '1/1', 'timeout': 120,
+     'netlist': ['V1 1 0 step {5}', 'R1 1 2 2', 'L1 2 0 3 1', 'L2 3 0 3 -2', 'R2 3 0 4', 'K1 L1 L2 {1/2}', 'I1 3 0 step {2}'],
+     'sources': {'V1': {'kind': 'step', 'c': '5', 'np': '1', 'nm': '0'}, 'I1': {'kind': 'step', 'c': '2', 'np': '3', 'nm': '0'}},
+     'scale': {'src': 'I1', 'k': '-2', 'line': 'I1 3 0 step {-4}'}},
+    {'type': 'circuit', 'profile': 'ac', 'tags': ['corpus', 'K'], 's0': '3/2', 'w0': '2/1', 'timeout': 120,
+     'netlist': ['V1 1 0 ac {5} 0 2', 'R1 1 2 2', 'L1 2 0 3', 'L2 3 0 3', 'R2 3 0 4', 'K1 L1 L2 {1/4}', 'I1 3 0 step {2}', 'V2 4 3 dc {1}', 'R3 4 0 1'],
+     'sources': {'V1': {'kind': 'ac', 'c': '5', 'w': '2', 'np': '1', 'nm': '0'}, 'I1': {'kind': 'step', 'c': '2', 'np': '3', 'nm': '0'},
+                 'V2': {'kind': 'dc', 'c': '1', 'np': '4', 'nm': '3'}},
+     'scale': {'src': 'V1', 'k': '3', 'line': 'V1 1 0 ac {15} 0 2'}},
     {'type': 'container', 'quantity': 'voltage', 's0': '3/2', 'w0': '5/3', 'collide': True, 'timeout': 40,
      'terms': [{'k': 'const', 'c': '3'}, {'k': 'cos', 'c': '2', 'w': '2'}, {'k': 'sin', 'c': '5', 'w': '2'}, {'k': 'step', 'c': '1'},
                {'k': 'sdom', 'c': '2', 'a': '3'}, {'k': 'noise', 'c': '3', 'nid': 'nz1'}, {'k': 'noise', 'c': '4', 'nid': 'nz1'},
@@ -669,6 +706,14 @@ def rhs_of_group(kd, kind, members, nn, mm):
             if e['name'] in ub:
                 m = ub.index(e['name'])
                 z[nn + m] = cadd(z[nn + m], voc)
+        elif ty == 'K' and kind == 'ivp':
+            M = P(e['params'].get('pZM2')) or Z0
+            i01 = P(e['params'].get('pI01')) or Z0
+            i02 = P(e['params'].get('pI02')) or Z0
+            if e.get('L1') in ub and e.get('L2') in ub:
+                m1, m2 = ub.index(e['L1']), ub.index(e['L2'])
+                z[nn + m1] = csub(z[nn + m1], cmul(M, i02))
+                z[nn + m2] = csub(z[nn + m2], cmul(M, i01))
     return z
 
 
@@ -693,16 +738,17 @@ def mna_checks(ci, case, wr, tr, res, flags):
                 if o:
                     owner = o
                     break
-            if owner is None or owner not in CNAMES or owner == 'K':
+            if owner is None or owner not in CNAMES:
                 ok = False
                 res.count('unsupported_class_' + str(e['cls']))
                 break
-            raws.append(rawc_of(e, ids, kindc, owner, case.get('eps', '1/7')))
+            raws.append(rawc_of(e, ids, kindc, owner, case.get('eps', '0')))
         if not ok:
             continue
+        # a capacitor in a dc analysis is stamped as the conductance eps and the solution is the limit eps -> 0:
+        # the limit solves the system taken at eps = 0 (matrix and model are evaluated there, case['eps'] = 0)
         if kd.get('has_eps'):
-            res.count('eps_kind_mna_checks_skipped')
-            continue
+            res.count('dc_kind_with_capacitor_checked_at_eps_0')
         A, Zv = kd['A'], kd['Z']
         nn = len(kd['node_list']) - 1
         mm = len(kd['unknown_branch_currents'])
@@ -726,6 +772,12 @@ def mna_checks(ci, case, wr, tr, res, flags):
         Zfull = [P(x) for x in Zv]
         groups = [(s_, [s_]) for s_ in srcs if s_ in ids]
         ic_members = [n for n in ics if n in ids and kind == 'ivp']
+        # a mutual inductance reads the initial currents of its two inductors: its position belongs to the ICs
+        kcpl = [e['name'] for e in kd['elements'] if e['type'] == 'K']
+        if kcpl:
+            res.count('mna_kinds_with_mutual_inductance')
+        if kind == 'ivp':
+            ic_members += kcpl
         if ic_members:
             groups.append(('ICs', ic_members))
         zs = {g: rhs_of_group(kd, kind, mem, nn, mm) for g, mem in groups}
